@@ -390,6 +390,8 @@ class C16(Check):
             shutil.rmtree(tmp, ignore_errors=True)
         mops = [['reader', op[1], op[2], 'path' if op[3] in ('path', 'fs') else op[3], op[4]] if op[0] == 'reader' else op for op in ops]
         model = drv.ask(sexp(['close-run'] + mops)).split(' ')
+        # non-vacuity of the every-level completeness theorem: are its side conditions met by the graph this script builds?
+        geom = drv.ask(sexp(['close-geom'] + mops))
         # ---- the property, stated on the real outcomes
         mon = []
         key = None
@@ -409,7 +411,7 @@ class C16(Check):
                                    f'(documented default False)')
                 if op[0] == 'io' and op[1] == 'w' and closed_w and out != 'V':
                     mon.append(f'{op[2]}() on a closed crypto wrapper returned')
-            info = {'kind:wrapper': 1, f'flavour:{case["flavour"]}': 1}
+            info = {'kind:wrapper': 1, f'flavour:{case["flavour"]}': 1, 'close-graph:' + geom: 1}
             return CaseResult(real, model, mon, f'wrapper:{case["flavour"]}:{cfd}:{case["tail"]}', None, info)
         reader_closed = False
         closed_handles = set()
@@ -449,7 +451,7 @@ class C16(Check):
                     mon.append(f'file closed={out} with closefd={cfd}, source {src}, reader closed={reader_closed}')
             if mon:
                 break
-        info = {f'kind:{kind}': 1, f'src:{src}': 1, f'cfd:{cfd}': 1, f'tail:{case["tail"].split(":")[0]}': 1}
+        info = {'close-graph:' + geom: 1, f'kind:{kind}': 1, f'src:{src}': 1, f'cfd:{cfd}': 1, f'tail:{case["tail"].split(":")[0]}': 1}
         return CaseResult(real, model, mon, f'{kind}:{src}:{cfd}:{case["tail"]}:{len(ops)}', key, info)
 
     def shrink(self, case):
